@@ -266,6 +266,33 @@ def single_frame_rule(rep, prog, cfg):
     if len(frame_next) == 1 and err_reads:
         e = variant_edge(b, frame_next[0], 0)
         ok = e is not None and all(x not in reach(g.succs, [0], avoid_edges=[e]) for x in err_reads)
+        if e is not None and not ok:
+            # `let Response { frames, error } = self;` moves the error out up front without looking at it: what counts is that
+            # no value derived from it is *returned* unless the frames gave None
+            from ..flow import Flow
+            fl = Flow(b)
+            starts = [s2["place"]["l"] for bb, i, s2 in b.stmts() if bb in err_reads and s2["k"] == "assign" and not s2["place"]["p"] and any(
+                pl is not None and pl["l"] == 1 and any(isinstance(e2, dict) and e2.get("n") == "error" for e2 in pl["p"])
+                for pl in ([s2["rv"].get("place")] if s2["rv"]["k"] in ("ref", "discr") else []) + ([op_place(s2["rv"]["op"])] if s2["rv"]["k"] == "use" else []))]
+            derived, _ = fl.forward(starts, through_call=lambda t, ai: True)
+            with_frame = reach(g.succs, [0], avoid_edges=[e])
+            bad = []
+            for bb in with_frame:
+                blk = b.blocks[bb]
+                for s2 in blk["s"]:
+                    if s2["k"] == "assign" and s2["place"]["l"] == 0:
+                        rv = s2["rv"]
+                        ops = rv.get("ops", []) + [rv[k] for k in ("op", "a", "b") if k in rv]
+                        if any(op_local(o) in derived for o in ops) or (rv["k"] in ("ref", "discr") and rv["place"]["l"] in derived):
+                            bad.append(bb)
+                    elif s2["k"] == "assign" and s2["rv"]["k"] == "discr" and s2["rv"]["place"]["l"] in derived and bb not in err_reads:
+                        bad.append(bb)        # a decision taken on the error while a frame may be there
+                t = blk["t"]
+                if t["k"] == "call" and t["dest"]["l"] == 0 and any(op_local(a) in derived for a in t["args"]):
+                    bad.append(bb)
+                if t["k"] == "switch" and op_local(t["discr"]) in derived:
+                    bad.append(bb)
+            ok = bool(starts) and not bad
     rep.check(ok, rule, cfg + "/into_single_frame = first item of the iteration", b.loc(b.span),
               "Response::into_single_frame consults the error although a frame may precede it (or the idiom is unknown): for a response with frames "
               "followed by an error it would disagree with frames().next(), which yields the first frame")
